@@ -68,6 +68,9 @@ Positions == IF Size >= 2 THEN {1, 5, 10, 11} ELSE {1, 10}
 CharProgs ==
   {<< [ty |-> "row", mods |-> ml, row |-> r, tomods |-> <<>>, letters |-> PadTo(n, c), rep |-> Normal, abs |-> <<>>] >>:
      ml \in {<<>>, <<K("RIGHTSHIFT")>>}, r \in {"`","1","Q","A","Z"}, n \in Positions, c \in Printable \cup {" "}}
+  \* every position of every row (and two beyond the longest) with a plain and a shifted letter: the physical row tables, key by key
+  \cup {<< [ty |-> "row", mods |-> <<>>, row |-> r, tomods |-> <<>>, letters |-> PadTo(n, c), rep |-> Normal, abs |-> <<>>] >>:
+     r \in {"`","1","Q","A","Z"}, n \in 1..14, c \in {"x", "X"}}
   \* both Shift keys on the trigger side, in either order: right Shift wins whenever the trigger contains it
   \cup {<< [ty |-> "row", mods |-> ml, row |-> r, tomods |-> <<>>, letters |-> PadTo(2, c), rep |-> rp, abs |-> <<>>] >>:
      ml \in {<<K("LEFTSHIFT"), K("RIGHTSHIFT")>>, <<K("RIGHTSHIFT"), K("LEFTSHIFT")>>}, r \in {"1", "A"}, c \in {"A", "a", "!", ";", "|"},
